@@ -34,6 +34,8 @@ pub struct Env {
     /// would otherwise make the tree infinite); such leaves are flagged
     pub horizon: usize,
     pub beyond_horizon: bool,
+    /// number of words handed out beyond the horizon (position in the deterministic tail stream)
+    pub tail: u64,
 }
 
 pub const DEFAULT_HORIZON: usize = 24;
@@ -46,6 +48,7 @@ impl Env {
             diverged: None,
             horizon: DEFAULT_HORIZON,
             beyond_horizon: false,
+            tail: 0,
         }
     }
     pub fn past_horizon(&mut self) -> bool {
@@ -55,6 +58,15 @@ impl Env {
         } else {
             false
         }
+    }
+    /// the next word of the deterministic splitmix64 stream used beyond the horizon (a constant word
+    /// can be one that a rejection sampler never accepts)
+    pub fn tail_word(&mut self) -> u64 {
+        self.tail = self.tail.wrapping_add(1);
+        let mut z = self.tail.wrapping_mul(0x9E37_79B9_7F4A_7C15);
+        z = (z ^ (z >> 30)).wrapping_mul(0xBF58_476D_1CE4_E5B9);
+        z = (z ^ (z >> 27)).wrapping_mul(0x94D0_49BB_1331_11EB);
+        z ^ (z >> 31)
     }
     pub fn from_picks(picks: &[u32]) -> Env {
         // widths unknown: taken from the run (used by --replay)
@@ -71,6 +83,7 @@ impl Env {
             diverged: None,
             horizon: DEFAULT_HORIZON,
             beyond_horizon: false,
+            tail: 0,
         }
     }
     pub fn choose(&mut self, width: u32, kind: Kind) -> u32 {
